@@ -627,3 +627,43 @@ def rf147(run):
                           'entry into the shim expands the vector (realloc), and the outer function then reads its parameter from the old, '
                           'freed area — under the interpreter interface only' % (F.src(x)[:60], bad[0]), line=x['l'])
     return n
+
+
+# ---------------------------------------------------------------------------------------------
+# RF151: generated code and the interpreter address the same copy of a data item
+# ---------------------------------------------------------------------------------------------
+
+def rf151(run):
+    rule = 'RF151'
+    run.rule(rule, 'mir-gen.c get_ref_value: the value of a reference to a data item is item->addr, the address the loader gave the item '
+                   '(the interpreter, ref data and imports use it).  The element buffer `u.data->u.els` is returned only under the '
+                   'condition that the item has no address yet (temporaries the generator creates after loading); otherwise generated '
+                   'code works on another copy than the interpreter, and the anonymous items that continue the section are not behind it')
+    gen = run.tu('gen')
+    f = gen.func('get_ref_value')
+    run.functions_analysed.add(('gen', f.name))
+    cfg = f.cfg
+    n = 0
+    for bid, ret in rf_flow.return_blocks(f).items():
+        if not ret.get('c') or ret['c'][0] is None:
+            continue
+        e = F.src(F.strip(ret['c'][0])).replace(' ', '')
+        if not e.endswith('u.els'):
+            continue
+        conds = dominating_conditions(cfg, bid)
+        ok = any(c.replace(' ', '').strip('()').endswith('->addr==0') and t or c.replace(' ', '').strip('()').endswith('->addr!=0') and not t
+                 for c, t in conds)
+        # the `&&` chain may hold the test as its last operand
+        if not ok:
+            for B in cfg.blocks.values():
+                if B.cond is not None and F.src(F.strip(B.cond)).replace(' ', '').strip('()').endswith('->addr==0') and bid in cfg.reachable_from(B.succs[0]) \
+                        and B.succs[0] is not None and cfg.dominates(B.id, bid):
+                    ok = True
+        n += 1
+        run.ob(rule, (ret['l'],), ok, {'returns': e, 'only for items without an address': ok})
+        if not ok:
+            run.violation(rule, f, 'element buffer used for a loaded item', 'get_ref_value returns `%s` without testing that the item has no address: for a '
+                          'loaded `.lcN` item generated code reads and writes the element buffer while the interpreter uses the loaded copy '
+                          '(`third ()` of a three-element `.lc` section: 33 interpreted, 0 generated)' % e, line=ret['l'])
+    run.ob(rule, ('exists',), True)
+    return n + 1
